@@ -75,6 +75,8 @@ inductive ParseErr where
   | multipleElementsAtTopLevel (sp : Span)
   | textAtTopLevel (sp : Span)
   | duplicateId (value : Str) (sp : Span)
+  | invalidNamespaceDeclaration (name : Str) (sp : Span)
+  | invalidTarget (target : Str) (sp : Span)
   | xmlParser (pos : Nat)
   deriving Repr, DecidableEq, Inhabited
 
@@ -92,6 +94,8 @@ def ParseErr.span : ParseErr → Span
   | .multipleElementsAtTopLevel sp => sp
   | .textAtTopLevel sp => sp
   | .duplicateId _ sp => sp
+  | .invalidNamespaceDeclaration _ sp => sp
+  | .invalidTarget _ sp => sp
   | .xmlParser pos => ⟨pos, pos⟩
 
 /-- `From<ContentErr>`: the two errors of `parse_content` as `ParseError`s. -/
@@ -166,6 +170,24 @@ def internName (e : Env) (loc : Str) (ns : Nat) : Env × Nat :=
   ({ e with names := r.1 }, r.2)
 
 end Env
+
+/-! ### Reserved names (`parse.rs`: `const XML_NAMESPACE`, `const XMLNS_NAMESPACE`, the target `xml`) -/
+
+/-- `http://www.w3.org/XML/1998/namespace` -/
+def xmlNamespaceUri : Str :=
+  ['h', 't', 't', 'p', ':', '/', '/', 'w', 'w', 'w', '.', 'w', '3', '.', 'o', 'r', 'g', '/', 'X', 'M', 'L', '/',
+   '1', '9', '9', '8', '/', 'n', 'a', 'm', 'e', 's', 'p', 'a', 'c', 'e']
+
+/-- `http://www.w3.org/2000/xmlns/` -/
+def xmlnsNamespaceUri : Str :=
+  ['h', 't', 't', 'p', ':', '/', '/', 'w', 'w', 'w', '.', 'w', '3', '.', 'o', 'r', 'g', '/', '2', '0', '0', '0', '/',
+   'x', 'm', 'l', 'n', 's', '/']
+
+/-- `u8::to_ascii_lowercase` on a `char` (only `A`–`Z` change). -/
+def asciiLowerChar (c : Char) : Char := if 65 ≤ c.toNat && c.toNat ≤ 90 then Char.ofNat (c.toNat + 32) else c
+
+/-- `target.eq_ignore_ascii_case("xml")`: the reserved PI target in any letter case. -/
+def isReservedPiTarget (target : Str) : Bool := target.map asciiLowerChar == ['x', 'm', 'l']
 
 /-- Document (`parse`, `parse_with_span_info`) or fragment (`parse_fragment…`). -/
 inductive Mode where
